@@ -112,12 +112,20 @@ pub fn units() -> Vec<Vec<String>> {
     // clock, a budget) must not reach a later depth-limited search. Histories that contain one run
     // under the node clock (1 node = 1 ms), which makes the timed searches deterministic too.
     u.push(vec!["position startpos".to_string(), "go movetime 20".to_string(), "isready".to_string()]);
-    u.push(vec!["position startpos moves e2e4".to_string(), "go wtime 150 btime 150 winc 0 binc 0".to_string(), "isready".to_string()]);
+    // a clock on which no time is left (budget 0 ms): the search stops before its first iteration
+    // whatever the real clock says, so this unit is deterministic WITHOUT the node clock and the
+    // histories that contain no other timed unit run on the engine's real timing path (what the
+    // node clock replaces is invisible to it)
+    u.push(vec!["position startpos moves e2e4".to_string(), "go wtime 1 btime 1 winc 0 binc 0".to_string(), "isready".to_string()]);
     u
 }
 
+fn is_zero_budget(c: &str) -> bool {
+    c == "go wtime 1 btime 1 winc 0 binc 0" || c == "go movetime 0"
+}
+
 fn is_timed(u: &[String]) -> bool {
-    u.iter().any(|c| c.starts_with("go ") && !c.starts_with("go depth"))
+    u.iter().any(|c| c.starts_with("go ") && !c.starts_with("go depth") && !is_zero_budget(c))
 }
 
 fn is_newgame(u: &[String]) -> bool {
